@@ -2,11 +2,11 @@ import RodbusModel.Model.Retry
 /-
   M8 (outer loop): `TcpChannelTask::{run, run_inner, connect, try_connect_and_run,
   run_connection, handle_failed_connection}` (tcp/client.rs) together with the command handling of
-  `ClientLoop::{wait_for_enabled, fail_next_request, fail_requests_for, run, run_cmd}` at the
+  `ClientLoop::{wait_for_enabled, fail_next_request, fail_requests_for, run, poll, run_cmd}` at the
   granularity of whole requests.  The connection-state listener is a lock-step gate: the task is
   blocked inside `listener.update(..)` until the environment releases it.
 
-  Time is abstracted to "which timer fires next"; the peer is one of six behaviours per
+  Time is abstracted to "which timer fires next"; the peer is one of seven behaviours per
   connection attempt.  Serial channels (`SerialChannelTask`) have the same structure with
   `PortState::{Disabled, Wait, Open, Shutdown}`.
 
@@ -15,11 +15,30 @@ import RodbusModel.Model.Retry
   `handle_failed_connection` exactly like a refused connect (`Behaviour.hsfail`).  The command
   queue also carries `Setting::DecodeLevel` (`Cmd.decode`), which changes the decode level and
   nothing else, in every phase.
+
+  The connection (`PhysLayer`) is an object of the state: `conn` is set when the attempt has
+  succeeded (the state `Connected` is announced next) and cleared when `run_connection` drops it,
+  which is always BEFORE the next state is announced; the peer sees the close, and the
+  environment reads that off at the next callback (`Ev.closed`, logged by `stop` in front of the
+  gate event).
+
+  `ClientLoop::poll` is a `tokio::select!` over the socket and the command queue: when the peer
+  has already closed / sent garbage AND a command is queued (or every handle is gone), either
+  branch may win.  The resolution is taken from the scheduler coin list `coins` (`true`: the
+  socket first); every theorem quantifies over all coin lists.
+
+  After the task has ended (`Pos.done`) the handles still exist: `stop` applies the user's actions
+  there as well (`applyDone`): a request completes with `shutdown` at once, everything else is
+  refused with `shutdown`, nothing is announced.
 -/
 namespace Rodbus.Life
 
-/-- `hsfail`: the TCP connect succeeds, the connection handler (TLS handshake) fails -/
+/-- `hsfail`: the TCP connect succeeds, the connection handler (TLS handshake) fails.
+    `serveN k false`: the peer answers `k` requests and closes right after the `k`-th reply;
+    `serveN k true`: it answers `k` requests and closes when it RECEIVES the next one (that
+    request is in flight when the connection is lost). -/
 inductive Behaviour | refuse | close | garbage | silent | serve | hsfail
+  | serveN (k : Nat) (wait : Bool)
 deriving DecidableEq, Repr
 
 /-- the attempt ends in `handle_failed_connection`: `connect()` returned an error, or the
@@ -27,6 +46,25 @@ deriving DecidableEq, Repr
 def Behaviour.fails : Behaviour → Bool
   | .refuse | .hsfail => true
   | _ => false
+
+/-- the peer has closed its side / sent its garbage: the socket branch of `poll` is ready
+    (`served`: requests answered on this connection) -/
+def Behaviour.gone (b : Behaviour) (served : Nat) : Bool :=
+  match b with
+  | .close | .garbage => true
+  | .serveN k false => decide (k ≤ served)
+  | _ => false
+
+/-- the peer closes when it receives the next request -/
+def Behaviour.dropsNext (b : Behaviour) (served : Nat) : Bool :=
+  match b with
+  | .serveN k true => decide (k ≤ served)
+  | _ => false
+
+/-- what a request in flight fails with when the connection is lost under it -/
+def Behaviour.lostErr : Behaviour → String
+  | .garbage => "bf.proto"
+  | _ => "io.eof"
 
 /-- what the user does through a handle -/
 inductive Action
@@ -43,12 +81,15 @@ inductive St
   | disabled | connecting | connected | waitFail (d : Nat) | waitDisc (d : Nat) | shutdown
 deriving DecidableEq, Repr
 
-/-- observable events -/
+/-- observable events.  `closed`: the peer of the connection announced last has seen the client
+    close it; `refused a`: the call `a` through a handle returned `Shutdown` (the task is gone) -/
 inductive Ev
   | gate (s : St)
   | idle
   | act (a : Action)
   | done (id : Nat) (res : String)
+  | closed
+  | refused (a : Action)
 deriving DecidableEq, Repr
 
 /-- what the task does next once it is released / woken -/
@@ -84,9 +125,29 @@ structure S where
   /-- `ClientLoop::decode` (an opaque level number) -/
   decode : Nat := 0
   log : List Ev := []
+  /-- the connection object (`PhysLayer`) exists -/
+  conn : Bool := false
+  /-- the peer has seen the connection closed by the client; not yet read off by the environment -/
+  unreported : Bool := false
+  /-- requests answered on the current connection -/
+  served : Nat := 0
+  /-- scheduler coins for `select!` in `ClientLoop::poll` (`true`: the socket branch wins);
+      `true` when the list is exhausted -/
+  coins : List Bool := []
+  /-- number of coins asked for after the list was exhausted (used by the driver to enumerate) -/
+  starved : Nat := 0
 deriving Repr
 
 def S.emit (s : S) (e : Ev) : S := { s with log := s.log ++ [e] }
+
+/-- the next scheduler coin -/
+def S.coinVal (s : S) : Bool := s.coins.headD true
+
+def S.coinPop (s : S) : S :=
+  { s with coins := s.coins.tail, starved := if s.coins.isEmpty then s.starved + 1 else s.starved }
+
+/-- `run_connection` returns: the `PhysLayer` is dropped, the peer sees EOF -/
+def S.closeConn (s : S) : S := { s with conn := false, unreported := true }
 
 def nextBehaviour (s : S) : Behaviour × S :=
   match s.behaviours with
@@ -94,100 +155,127 @@ def nextBehaviour (s : S) : Behaviour × S :=
   | [b] => (b, s)
   | b :: rest => (b, { s with behaviours := rest })
 
+/-- every queued request is dropped, i.e. completed with Shutdown -/
+def flush (s : S) : S :=
+  s.queue.foldl (fun s c => match c with
+    | .request id => s.emit (.done id "shutdown")
+    | _ => s) s
+
+/-- one iteration of the task: carry on in a phase, or block -/
+inductive Res
+  | cont (ph : Phase) (s : S)
+  | halt (s : S) (pos : Pos)
+
+/-- the session ends with an I/O error, a bad frame or the timeout limit: the connection is
+    dropped, `WaitAfterDisconnect(after_disconnect())` is announced -/
+def lost (s : S) : Res :=
+  .halt s.closeConn (.gate (.waitDisc (Retry.afterDisconnect s.retry)) .failFor)
+
+/-- one iteration of the task -/
+def step (ph : Phase) (s : S) : Res :=
+  match ph with
+  | .finished =>
+    -- the task is gone: every queued request is dropped, i.e. completed with Shutdown
+    .halt { flush s with queue := [], alive := false } .done
+  | .afterDisable => .halt s (.gate .disabled .waitEnabled)
+  | .waitEnabled =>
+    if s.enabled then
+      -- the environment of an attempt is fixed when the attempt is announced
+      .halt { (nextBehaviour s).2 with cur := (nextBehaviour s).1 } (.gate .connecting .connect)
+    else match s.queue with
+      | [] => if s.handles then .halt s (.idle .waitEnabled) else .halt s (.gate .shutdown .finished)
+      | c :: q =>
+        match c with
+        | .request id => .cont .waitEnabled ({ s with queue := q }.emit (.done id "noconn"))
+        | .enable => .cont .waitEnabled { s with queue := q, enabled := true }
+        | .disable => .cont .waitEnabled { s with queue := q }
+        | .decode l => .cont .waitEnabled { s with queue := q, decode := l }
+        | .shutdown => .halt { s with queue := q } (.gate .shutdown .finished)
+  | .connect =>
+    -- queued commands are served by `fail_requests` before the connect result is looked at
+    match s.queue with
+    | c :: q =>
+      match c with
+      | .request id => .cont .connect ({ s with queue := q }.emit (.done id "noconn"))
+      | .enable => .cont .connect { s with queue := q }
+      | .decode l => .cont .connect { s with queue := q, decode := l }
+      | .disable => .cont .afterDisable { s with queue := q, enabled := false }
+      | .shutdown => .halt { s with queue := q } (.gate .shutdown .finished)
+    | [] =>
+      if !s.handles then .halt s (.gate .shutdown .finished)
+      else if s.cur.fails then
+        -- refused connect or failed handshake: `handle_failed_connection`
+        .halt { s with retry := (Retry.afterFailedConnect s.retry).2 }
+          (.gate (.waitFail (Retry.afterFailedConnect s.retry).1) .failFor)
+      else .halt { s with conn := true } (.gate .connected (.sessionStart s.cur))
+  | .sessionStart b =>
+    .cont (.session b) { s with retry := Retry.reset s.retry, tcount := 0, served := 0 }
+  | .session b =>
+    if b.fails then .halt s (.idle (.session b))   -- not reachable
+    else if b.gone s.served then
+      -- the socket branch of `poll` is ready (EOF / garbage); so may be the command branch
+      match s.queue with
+      | [] =>
+        if s.handles then lost s
+        else if s.coinVal then lost s.coinPop
+        else .halt s.coinPop.closeConn (.gate .shutdown .finished)
+      | c :: q =>
+        if s.coinVal then lost s.coinPop
+        else
+          match c with
+          | .enable => .cont (.session b) { s.coinPop with queue := q }
+          | .decode l => .cont (.session b) { s.coinPop with queue := q, decode := l }
+          | .disable => .cont .afterDisable { s.coinPop.closeConn with queue := q, enabled := false }
+          | .shutdown => .halt { s.coinPop.closeConn with queue := q } (.gate .shutdown .finished)
+          | .request id =>
+            -- written to a peer that is gone: the transport error fails it and ends the session
+            lost ({ s.coinPop with queue := q }.emit (.done id b.lostErr))
+    else
+      match s.queue with
+      | [] =>
+        if s.handles then .halt s (.idle (.session b))
+        else .halt s.closeConn (.gate .shutdown .finished)
+      | c :: q =>
+        match c with
+        | .enable => .cont (.session b) { s with queue := q }
+        | .decode l => .cont (.session b) { s with queue := q, decode := l }
+        | .disable => .cont .afterDisable { s.closeConn with queue := q, enabled := false }
+        | .shutdown => .halt { s.closeConn with queue := q } (.gate .shutdown .finished)
+        | .request id =>
+          if b = .silent then
+            if s.maxto ≠ 0 ∧ s.tcount + 1 ≥ s.maxto then
+              lost ({ s with queue := q, tcount := s.tcount + 1 }.emit (.done id "timeout"))
+            else .cont (.session b) ({ s with queue := q, tcount := s.tcount + 1 }.emit (.done id "timeout"))
+          else if b.dropsNext s.served then
+            -- the peer closes on receiving the request: it is in flight when the connection is lost
+            lost ({ s with queue := q }.emit (.done id "io.eof"))
+          else
+            .cont (.session b)
+              ({ s with queue := q, tcount := 0, served := s.served + 1 }.emit (.done id "ok.4660"))
+  | .failFor =>
+    match s.queue with
+    | c :: q =>
+      match c with
+      | .request id => .cont .failFor ({ s with queue := q }.emit (.done id "noconn"))
+      | .enable => .cont .failFor { s with queue := q }
+      | .decode l => .cont .failFor { s with queue := q, decode := l }
+      | .disable => .cont .afterDisable { s with queue := q, enabled := false }
+      | .shutdown => .halt { s with queue := q } (.gate .shutdown .finished)
+    | [] =>
+      if !s.handles then .halt s (.gate .shutdown .finished)
+      else
+        -- the delay elapses: back to the top of `run_inner` (still enabled)
+        .cont .waitEnabled s
+
+def Res.fin (k : Phase → S → S × Pos) : Res → S × Pos
+  | .cont ph s => k ph s
+  | .halt s p => (s, p)
+
 /-- run the task from `phase` until it blocks (gate or idle). `fuel` bounds the number of
     commands processed; every iteration consumes a queued command or blocks. -/
 def advance : Nat → Phase → S → S × Pos
   | 0, ph, s => (s, .idle ph)
-  | fuel + 1, ph, s =>
-    match ph with
-    | .finished =>
-      -- the task is gone: every queued request is dropped, i.e. completed with Shutdown
-      let s := s.queue.foldl (fun s c => match c with
-        | .request id => s.emit (.done id "shutdown")
-        | _ => s) s
-      ({ s with queue := [], alive := false }, .done)
-    | .afterDisable => (s, .gate .disabled .waitEnabled)
-    | .waitEnabled =>
-      if s.enabled then
-        -- the environment of an attempt is fixed when the attempt is announced
-        let (b, s) := nextBehaviour s
-        ({ s with cur := b }, .gate .connecting .connect)
-      else match s.queue with
-        | [] =>
-          if s.handles then (s, .idle .waitEnabled)
-          else (s, .gate .shutdown .finished)
-        | c :: q =>
-          let s := { s with queue := q }
-          match c with
-          | .request id => advance fuel .waitEnabled (s.emit (.done id "noconn"))
-          | .enable => advance fuel .waitEnabled { s with enabled := true }
-          | .disable => advance fuel .waitEnabled s
-          | .decode l => advance fuel .waitEnabled { s with decode := l }
-          | .shutdown => (s, .gate .shutdown .finished)
-    | .connect =>
-      -- queued commands are served by `fail_requests` before the connect result is looked at
-      match s.queue with
-      | c :: q =>
-        let s := { s with queue := q }
-        match c with
-        | .request id => advance fuel .connect (s.emit (.done id "noconn"))
-        | .enable => advance fuel .connect s
-        | .decode l => advance fuel .connect { s with decode := l }
-        | .disable => advance fuel .afterDisable { s with enabled := false }
-        | .shutdown => (s, .gate .shutdown .finished)
-      | [] =>
-        if !s.handles then (s, .gate .shutdown .finished)
-        else if s.cur.fails then
-          -- refused connect or failed handshake: `handle_failed_connection`
-          let (d, r) := Retry.afterFailedConnect s.retry
-          let s := { s with retry := r }
-          (s, .gate (.waitFail d) .failFor)
-        else (s, .gate .connected (.sessionStart s.cur))
-    | .sessionStart b =>
-      advance fuel (.session b) { s with retry := Retry.reset s.retry, tcount := 0 }
-    | .session b =>
-      match b with
-      | .refuse | .hsfail => (s, .idle (.session b))   -- not reachable
-      | .close | .garbage =>
-        -- the peer's EOF / garbage ends the session
-        let d := Retry.afterDisconnect s.retry
-        (s, .gate (.waitDisc d) .failFor)
-      | .silent | .serve =>
-        match s.queue with
-        | [] =>
-          if s.handles then (s, .idle (.session b))
-          else (s, .gate .shutdown .finished)
-        | c :: q =>
-          let s := { s with queue := q }
-          match c with
-          | .enable => advance fuel (.session b) s
-          | .decode l => advance fuel (.session b) { s with decode := l }
-          | .disable => advance fuel .afterDisable { s with enabled := false }
-          | .shutdown => (s, .gate .shutdown .finished)
-          | .request id =>
-            if b = .serve then
-              advance fuel (.session b) ({ s with tcount := 0 }.emit (.done id "ok.4660"))
-            else
-              let s := ({ s with tcount := s.tcount + 1 }).emit (.done id "timeout")
-              if s.maxto ≠ 0 ∧ s.tcount ≥ s.maxto then
-                let d := Retry.afterDisconnect s.retry
-                (s, .gate (.waitDisc d) .failFor)
-              else advance fuel (.session b) s
-    | .failFor =>
-      match s.queue with
-      | c :: q =>
-        let s := { s with queue := q }
-        match c with
-        | .request id => advance fuel .failFor (s.emit (.done id "noconn"))
-        | .enable => advance fuel .failFor s
-        | .decode l => advance fuel .failFor { s with decode := l }
-        | .disable => advance fuel .afterDisable { s with enabled := false }
-        | .shutdown => (s, .gate .shutdown .finished)
-      | [] =>
-        if !s.handles then (s, .gate .shutdown .finished)
-        else
-          -- the delay elapses: back to the top of `run_inner` (still enabled)
-          advance fuel .waitEnabled s
+  | fuel + 1, ph, s => (step ph s).fin (advance fuel)
 
 def applyAction (s : S) (a : Action) : S :=
   if !s.handles then s        -- no handle left to act through
@@ -201,15 +289,29 @@ def applyAction (s : S) (a : Action) : S :=
     | .setDecode l => { s with queue := s.queue ++ [.decode l] }
     | .dropAll => { s with handles := false }
 
+/-- an action through a handle after the task has ended: the receiver of the command queue is
+    gone, so a request completes with `Shutdown` at once and every other call returns `Shutdown` -/
+def applyDone (s : S) (a : Action) : S :=
+  if !s.handles then s
+  else
+    match a with
+    | .request id => (s.emit (.act (.request id))).emit (.done id "shutdown")
+    | .dropAll => { s.emit (.act .dropAll) with handles := false }
+    | a => s.emit (.refused a)
+
 def fuelFor (s : S) : Nat := 2 * s.queue.length + 8
+
+/-- the environment reads off the peer's observation at a callback -/
+def S.report (s : S) : S :=
+  if s.unreported then { s with unreported := false }.emit .closed else s
 
 /-- one stop: the environment acts while the task is blocked, then the task runs on -/
 def stop (s : S) (pos : Pos) (acts : List Action) : S × Pos :=
   match pos with
-  | .done => (s, .done)
+  | .done => (acts.foldl applyDone s, .done)
   | .gate st next =>
     -- the environment observes the state (the callback), acts, then releases the task
-    let s := s.emit (.gate st)
+    let s := s.report.emit (.gate st)
     let s := acts.foldl applyAction s
     advance (fuelFor s) next s
   | .idle resume =>
@@ -217,13 +319,10 @@ def stop (s : S) (pos : Pos) (acts : List Action) : S × Pos :=
     let s := acts.foldl applyAction s
     advance (fuelFor s) resume s
 
-/-- run a script of stops; stops as soon as `Shutdown` has been announced and released -/
+/-- run a script of stops (stops after the end of the task included) -/
 def runStops : S → Pos → List (List Action) → S × Pos
   | s, pos, [] => (s, pos)
-  | s, .done, _ => (s, .done)
-  | s, pos, acts :: rest =>
-    let (s', pos') := stop s pos acts
-    runStops s' pos' rest
+  | s, pos, acts :: rest => runStops (stop s pos acts).1 (stop s pos acts).2 rest
 
 /-- the task from its start (`run`: announce `Disabled`, then `run_inner`) -/
 def start (s : S) : S × Pos := (s, .gate .disabled .waitEnabled)
